@@ -267,12 +267,17 @@ func Pages(r *rng.R, n int) Result {
 					second := cq.VL(cq.VZ(2))
 					got := append([]cq.V{}, items1...)
 					if len(next) > 0 {
-						items2, next2, _, f2 := ask(&query.PageRequest{Key: next, Limit: lim2r, Reverse: rv})
+						items2, next2, total2, f2 := ask(&query.PageRequest{Key: next, Limit: lim2r, Reverse: rv, CountTotal: cr.Bool()})
 						if f2 {
 							fail("resume-refused", "a request from a next key the listing handed out is refused")
 							second = cq.VL(cq.VZ(1))
 						} else {
-							second = cq.VL(cq.VZ(0), cq.VL(items2...), cq.VB(len(next2) > 0), cq.VU(0))
+							// a page requested by key carries no total (the SDK counts only from the start of a listing): 0, or - should
+							// that ever be added - the number of matching entries, never anything else
+							if total2 != 0 && total2 != uint64(L) {
+								fail("page-total", fmt.Sprintf("a page requested by key reports total %d for a listing of %d matching entries", total2, L))
+							}
+							second = cq.VL(cq.VZ(0), cq.VL(items2...), cq.VB(len(next2) > 0), cq.VU(total2))
 							got = append(got, items2...)
 						}
 					}
